@@ -1451,7 +1451,11 @@ func (g *lgen) gfxLines() []string {
 var nonGrammar = []string{"", "PING", "ping ", " ping", "pong", "Ping", "hello world", "HWCy#1=2", "hwc#1=2", "HWC1=2", "Memx=1", "mem=1", "MEMA=1",
 	"flag#1=1", "State_1=2", "Shifta=3", "foo=bar", "=5", "#=1", "HeartBeat=5", "heartbeattimer=5", "Brightness=1,2", "Sleep=1", "HWCg=0:AAAA",
 	"Clear!", "Reboot?", "list=1", "map=1:2", "_model=x", "HWC#1", "BSY", "RDY", "Webserver", "Flag1=2",
-	"Mema=1", "Shiftx=3", "Statez=2", "MemA1b=5", "State=x=1", "Shift-1=2", "Mem 1=2"}
+	"Mema=1", "Shiftx=3", "Statez=2", "MemA1b=5", "State=x=1", "Shift-1=2", "Mem 1=2",
+	// a grammar line behind a foreign prefix / before a foreign suffix (an un-anchored pattern would accept these)
+	"PanelState=4", "xMemA=7", "ResetShiftB=1", "NoFlag#12=1", "HeartBeatState=3", "Foo Mem=33", "xHWC#1=4", "yHWCt#1=5", " HWCx#3=1",
+	"xHeartBeatTimer=5", "MyPanelBrightness=3", "MyPanelBrightness=3,4", "xSetCalibrationProfile={}", "HWCg#1=0:AAAAx y", "zHWCg#1=0:AAAA",
+	"HWC#1=4 ", "MemA=7x", "PanelBrightness=3,4,", "HeartBeatTimer=5;", "Flag#1=1 1"}
 
 func (g *lgen) line() []string {
 	switch g.r.Intn(20) {
